@@ -237,7 +237,7 @@ func runC07(rc *RunCtx) {
 			}
 			before := planBytes(o)
 			usedBefore := pi.SpaceUsed
-			w, r := s.PostFile(o, f, maxp, expires, size)
+			w, r := s.PostFileSized(o, f, maxp, expires, size)
 			rc.Logf("h=%d acc%d posts %s size=%d maxp=%d payonce=%v -> %d %s", c.Height, o, kind, size, maxp, payOnce, r.Code, failLog(r))
 			if r.OK() {
 				files = append(files, &live{w: w})
@@ -311,6 +311,14 @@ func runC07(rc *RunCtx) {
 			}
 		default:
 			dt := []time.Duration{6 * time.Second, time.Hour, 24 * time.Hour, 40 * 24 * time.Hour, 100 * 24 * time.Hour}[rc.Intn(5)]
+			if pi, had := plan(o); had && pi.End.After(c.Time) && rc.Chance(0.3) {
+				// the next block lands a fraction of a second after (or exactly on, or just before) the end of o's plan
+				dt = pi.End.Sub(c.Time) + []time.Duration{300 * time.Millisecond, 1, 0, -1, -400 * time.Millisecond, time.Second}[rc.Intn(6)]
+				if dt <= 0 {
+					dt = time.Millisecond
+				}
+				m.paths["block-at-plan-end"] = true
+			}
 			if !step(dt) {
 				return
 			}
